@@ -116,6 +116,26 @@ B('f_c13_valid_wsgi_first_only', ['C13'], 'R13.b',
   (A, _CV, "    if not wc_args or wc_args[0] != 'environ':\n"))
 B('f_c13_valid_wsgi_swapped', ['C13'], 'R13.b',
   (A, _CV, "    if (not len(wc_args) == 2\n        or wc_args[1] != 'environ'\n        or wc_args[0] != 'start_response'):\n"))
+# the three-way ``or`` as one comparison of the leading names with a module constant (folded)
+_CVDEF = 'def check_valid_wsgi(wsgi_callable):\n'
+T('f_c13_valid_wsgi_const_tuple', ['C13'],
+  (A, _CVDEF, "_EXPECTED_LEADING = ('environ', 'start_response')\n\n\n" + _CVDEF),
+  (A, _CV, "    if tuple(wc_args) != _EXPECTED_LEADING:\n"))
+B('f_c13_valid_wsgi_const_tuple_wrong_names', ['C13'], 'R13.b',
+  (A, _CVDEF, "_EXPECTED_LEADING = ('environ', 'start')\n\n\n" + _CVDEF),
+  (A, _CV, "    if tuple(wc_args) != _EXPECTED_LEADING:\n"))
+B('f_c13_valid_wsgi_const_tuple_first_only', ['C13'], 'R13.b',
+  (A, _CVDEF, "_EXPECTED_LEADING = ('environ',)\n\n\n" + _CVDEF),
+  (A, _CV, "    if tuple(wc_args[:1]) != _EXPECTED_LEADING:\n"))
+B('f_c13_valid_wsgi_const_tuple_wrong_slice', ['C13'], 'R13.b',
+  (A, _CVDEF, "_EXPECTED_LEADING = ('environ', 'start_response')\n\n\n" + _CVDEF),
+  (A, _CV, "    if tuple(get_arg_names(wsgi_callable)[1:3]) != _EXPECTED_LEADING:\n"))
+B('f_c13_valid_wsgi_const_tuple_rebound', ['C13'], 'R13.b',
+  (A, _CVDEF, "_EXPECTED_LEADING = ('environ', 'start_response')\n_EXPECTED_LEADING = ('a', 'b')\n\n\n" + _CVDEF),
+  (A, _CV, "    if tuple(wc_args) != _EXPECTED_LEADING:\n"))
+B('f_c13_valid_wsgi_const_tuple_shadowed_by_local', ['C13'], 'R13.b',
+  (A, _CVDEF, "_EXPECTED_LEADING = ('environ', 'start_response')\n\n\n" + _CVDEF),
+  (A, _CV, "    _EXPECTED_LEADING = tuple(wc_args)\n    if tuple(wc_args) != _EXPECTED_LEADING:\n"))
 T('f_c13_safe_wrap_renamed_locals', ['C13'],
   (A, "    wsgi_wrapper = getattr(source, 'wsgi_wrapper', None)\n    if wsgi_wrapper is None:\n        return inner  # no wsgi_wrapper, no problem\n"
       "    elif not callable(wsgi_wrapper):\n",
@@ -123,6 +143,8 @@ T('f_c13_safe_wrap_renamed_locals', ['C13'],
       "    if not callable(wrapper):\n"),
   (A, '    wrapped_wsgi = wsgi_wrapper(inner)\n    try:\n        check_valid_wsgi(wrapped_wsgi)\n',
       '    outer = wrapper(inner)\n    wrapped_wsgi = outer\n    try:\n        check_valid_wsgi(wsgi_callable=outer)\n'))
+B('f_c13_safe_wrap_lookup_on_class', ['C13'], 'R13.b',
+  (A, "    wsgi_wrapper = getattr(source, 'wsgi_wrapper', None)\n", "    wsgi_wrapper = getattr(type(source), 'wsgi_wrapper', None)\n"))
 B('f_c13_safe_wrap_unvalidated_path', ['C13'], 'R13.b',
   (A, '    wrapped_wsgi = wsgi_wrapper(inner)\n    try:\n        check_valid_wsgi(wrapped_wsgi)\n',
       "    wrapped_wsgi = wsgi_wrapper(inner)\n    if source_name == 'error_handler':\n        return wrapped_wsgi\n    try:\n        check_valid_wsgi(wrapped_wsgi)\n"))
@@ -1102,3 +1124,17 @@ T('g_c13_streamed_made_sequence_first', ['C13'],
   (GZ, _GZ_TODO, '            resp.make_sequence()\n            resp.response = [chunk.upper() for chunk in resp.response]\n            return resp\n'))
 T('g_c13_buffered_read_through_get_data', ['C13'],
   (GZ, _GZ_DATA, '        raw_content = resp.get_data()\n        comp_content = gzip_bytes(raw_content, self.compress_level)\n'))
+
+# ---- R12.a / R08.d: a local re-bound to a display / comprehension after a call result is still this activation's own ----
+_INJ_OLD = ("    if fb.varkw:\n        return f(**all_kwargs)\n\n"
+            "    kwargs = dict([(k, v) for k, v in all_kwargs.items() if k in fb.get_arg_names()])\n    return f(**kwargs)\n")
+T('f_c12_inject_single_exit_rebound_comprehension', ['C12', 'C08'],
+  (S, _INJ_OLD, "    if not fb.varkw:\n        declared = fb.get_arg_names()\n"
+                "        all_kwargs = {k: v for k, v in all_kwargs.items() if k in declared}\n    return f(**all_kwargs)\n"))
+T('f_c12_inject_display_then_update', ['C12', 'C08'],
+  (S, "    all_kwargs = fb.get_defaults_dict()\n    all_kwargs.update(injectables)\n",
+      "    all_kwargs = fb.get_defaults_dict()\n    if not all_kwargs:\n        all_kwargs = {}\n    all_kwargs.update(injectables)\n"))
+B('f_c12_inject_rebound_to_shared_mapping', ['C12', 'C08'], {'C12': 'R12.a', 'C08': 'R08.d'},
+  (S, "    all_kwargs = fb.get_defaults_dict()\n    all_kwargs.update(injectables)\n",
+      "    cands = {k: v for k, v in fb.get_defaults_dict().items()}\n    if not cands:\n        cands = f.__dict__\n"
+      "    cands.update(injectables)\n    all_kwargs = cands\n"))
